@@ -183,6 +183,7 @@ type c14Env struct {
 	bomb   space.BombProxy
 	direct bus.Client
 	nextID uint32
+	closed map[int]bool // harness connections the sequence has closed (c14feat.go)
 }
 
 func c14NewEnv() (*c14Env, error) {
@@ -264,7 +265,7 @@ func (e *c14Env) rawCall(conn int, action uint32, payload []byte) (*net.Message,
 	if err := c.send(net.Call, e.sid, 1, action, id, payload); err != nil {
 		return nil, false
 	}
-	m := c.waitSeen(id, 5*time.Second)
+	m := c.waitAnswer(id, 5*time.Second)
 	return m, m != nil
 }
 func (e *c14Env) rawGet(conn int, nm c14Name) (c14Res, bool) {
@@ -326,7 +327,7 @@ func (e *c14Env) subscribe(conn int, uid uint64) (uint32, bool) {
 	if err := c.send(net.Call, e.sid, 1, 0, id, payload); err != nil {
 		return 0, false
 	}
-	m := c.waitSeen(id, 5*time.Second)
+	m := c.waitAnswer(id, 5*time.Second)
 	return id, m != nil && m.Header.Type == net.Reply
 }
 
@@ -370,6 +371,7 @@ type c14Sub struct {
 // each on a fresh object with one subscriber.
 func c14Exhaustive(res *hx.Result, rng *hx.Rng, cf *hx.Cases, maxLen int) {
 	const k = 6
+	wedged := 0
 	for l := 1; l <= maxLen; l++ {
 		total := 1
 		for i := 0; i < l; i++ {
@@ -382,25 +384,33 @@ func c14Exhaustive(res *hx.Result, rng *hx.Rng, cf *hx.Cases, maxLen int) {
 				script[i] = c % k
 				c /= k
 			}
-			c14Sequence(res, rng, cf, -1, script)
+			if !c14Sequence(res, rng, cf, -1, script) {
+				if wedged++; wedged >= 3 {
+					return
+				}
+			}
 		}
 	}
 }
 
 func c14Sequential(res *hx.Result, rng *hx.Rng, cf *hx.Cases, n int) {
-	for i := 0; i < n; i++ {
-		c14Sequence(res, rng, cf, i, nil)
+	wedged := 0 // sequences given up because a call got no answer within its deadline: the family stops after three
+	for i := 0; i < n && wedged < 3; i++ {
+		if !c14Sequence(res, rng, cf, i, nil) {
+			wedged++
+		}
 	}
 }
 
 // c14Sequence: one sequence on a fresh object; script == nil: random operations
-func c14Sequence(res *hx.Result, rng *hx.Rng, cf *hx.Cases, i int, script []int) {
+func c14Sequence(res *hx.Result, rng *hx.Rng, cf *hx.Cases, i int, script []int) bool {
 	{
 		e, err := c14NewEnv()
 		if err != nil {
 			res.Fail("harness-setup", err.Error())
-			return
+			return false
 		}
+		wedged := false
 		var ops, descs []string
 		var subs []c14Sub
 		var last *c14Val // the value of the most recent write the implementation accepted
@@ -411,7 +421,25 @@ func c14Sequence(res *hx.Result, rng *hx.Rng, cf *hx.Cases, i int, script []int)
 			ops = append(ops, fmt.Sprintf("(%s, so %s %s)", op, r, c14EventsTerm(evs)))
 			descs = append(descs, desc)
 		}
-		trace := func() string { return strings.Join(descs, " ; ") }
+		// half of the random sequences run with method statistics (a quarter: and traces) switched on
+		// beforehand by one of the connections — for the model no step at all; a stream of its own decides
+		feat := ""
+		if script == nil {
+			fr := hx.NewRng(res.Seed*0x9e3779b97f4a7c15 + uint64(i)*0x51ed27 + 0xc145e9)
+			switch fr.Intn(4) {
+			case 0:
+				e.rawCall(fr.Intn(3), c14ActEnableStats, []byte{1})
+				feat = "[statistics on] "
+			case 1:
+				e.rawCall(fr.Intn(3), c14ActEnableStats, []byte{1})
+				e.rawCall(fr.Intn(3), c14ActEnableTrace, []byte{1})
+				feat = "[statistics and traces on] "
+			}
+			if feat != "" {
+				res.Dist("seq-features-on")
+			}
+		}
+		trace := func() string { return feat + strings.Join(descs, " ; ") }
 		fail := func(kind, detail string) {
 			if untyped {
 				res.FailKnown(kind, detail, "store_untyped")
@@ -460,6 +488,7 @@ func c14Sequence(res *hx.Result, rng *hx.Rng, cf *hx.Cases, i int, script []int)
 		if script != nil {
 			nops = len(script) + 1
 		}
+	opsLoop:
 		for j := 0; j < nops; j++ {
 			x := rng.Intn(100)
 			var forcedName *c14Name
@@ -524,7 +553,13 @@ func c14Sequence(res *hx.Result, rng *hx.Rng, cf *hx.Cases, i int, script []int)
 				}
 			case x < 38:
 				// the generated getter
-				d, err := e.bomb.GetDelay()
+				var d int32
+				var err error
+				if _, answered := c14Within(5*time.Second, func() c14Res { d, err = e.bomb.GetDelay(); return c14Res{} }); !answered {
+					res.Fail("call-unanswered", "GetDelay(): no answer within 5 s, after: "+trace())
+					wedged = true
+					break opsLoop
+				}
 				evs := e.events()
 				r := "(STyped None)"
 				desc := "GetDelay()->error"
@@ -563,12 +598,18 @@ func c14Sequence(res *hx.Result, rng *hx.Rng, cf *hx.Cases, i int, script []int)
 			case x < 78:
 				// the generated setter
 				xv := c14GenInt(rng)
-				err := e.bomb.SetDelay(int32(xv))
-				evs := e.events()
-				r := c14Res{kind: 2}
-				if err != nil {
-					r.kind = 1
+				r, answered := c14Within(5*time.Second, func() c14Res {
+					if err := e.bomb.SetDelay(int32(xv)); err != nil {
+						return c14Res{kind: 1}
+					}
+					return c14Res{kind: 2}
+				})
+				if !answered {
+					res.Fail("call-unanswered", fmt.Sprintf("SetDelay(%d): no answer within 5 s, after: %s", int32(xv), trace()))
+					wedged = true
+					break opsLoop
 				}
+				evs := e.events()
 				desc := fmt.Sprintf("SetDelay(%d)->%s", int32(xv), r)
 				record(fmt.Sprintf("PSet %s %s", c14Delay.term(), c14Int(xv).term()), r.sres(), evs, desc)
 				checkWrite(desc, r, c14Int(xv), evs)
@@ -583,7 +624,12 @@ func c14Sequence(res *hx.Result, rng *hx.Rng, cf *hx.Cases, i int, script []int)
 				if forcedInt != nil {
 					xv = *forcedInt
 				}
-				r := e.update(xv)
+				r, answered := c14Within(5*time.Second, func() c14Res { return e.update(xv) })
+				if !answered {
+					res.Fail("call-unanswered", fmt.Sprintf("UpdateDelay(%d): did not return within 5 s, after: %s", int32(xv), trace()))
+					wedged = true
+					break opsLoop
+				}
 				evs := e.events()
 				desc := fmt.Sprintf("UpdateDelay(%d)->%s", int32(xv), r)
 				record(fmt.Sprintf("PUpdate %d", xv), r.sres(), evs, desc)
@@ -610,6 +656,7 @@ func c14Sequence(res *hx.Result, rng *hx.Rng, cf *hx.Cases, i int, script []int)
 			res.Sample(trace())
 		}
 		cf.Add("scases", fmt.Sprintf("{| sc_ops := [\n    %s] |}", strings.Join(ops, ";\n    ")), fmt.Sprintf("sequence %d: %s", i, trace()))
+		return !wedged
 	}
 }
 
@@ -625,7 +672,9 @@ type c14Reg struct {
 }
 
 // c14ROp: kind 0 registerEvent, 1 unregisterEvent, 2 raw get, 3 raw set, 4 generated SetDelay,
-// 5 implementor UpdateDelay, 6 implementor SignalBoom
+// 5 implementor UpdateDelay, 6 implementor SignalBoom; c14feat.go: 7 another method of the generic
+// object (action, for enableStats / enableTrace the argument on), 8 setProperty through the second
+// mailbox (bus.DirectClient), 9 the connection is closed
 type c14ROp struct {
 	kind     int
 	conn     int
@@ -633,6 +682,8 @@ type c14ROp struct {
 	uid      uint64
 	v        c14Val
 	x        uint32
+	action   uint32
+	on       bool
 }
 
 type c14AnyEvent struct {
@@ -650,7 +701,7 @@ func (e *c14Env) rawReg(conn int, action uint32, obj, sig uint32, uid uint64) (u
 	if err := c.send(net.Call, e.sid, 1, action, id, payload); err != nil {
 		return id, false, false
 	}
-	m := c.waitSeen(id, 5*time.Second)
+	m := c.waitAnswer(id, 5*time.Second)
 	return id, m != nil && m.Header.Type == net.Reply, m != nil
 }
 
@@ -667,7 +718,12 @@ func (e *c14Env) signalBoom(x uint32) c14Res {
 // allEvents: every event frame (whatever its action) each connection received since the last call,
 // connection by connection, in arrival order
 func (e *c14Env) allEvents() ([]c14AnyEvent, bool) {
-	ok := e.env.syncAll()
+	ok := true
+	for ci, c := range e.env.conns {
+		if !e.closed[ci] && !c.sync() {
+			ok = false
+		}
+	}
 	var out []c14AnyEvent
 	for ci, c := range e.env.conns {
 		for _, m := range c.take() {
@@ -788,16 +844,25 @@ func c14RegistryScripts() [][]c14ROp {
 func c14Registry(res *hx.Result, rng *hx.Rng, cf *hx.Cases, n int) {
 	wedged := 0 // sequences given up because a call got no answer within its deadline: the family stops after three
 	for i, sc := range c14RegistryScripts() {
-		if wedged < 3 && !c14RegistrySequence(res, rng, cf, i, sc) {
+		if wedged < 3 && !c14RegistrySequence(res, rng, cf, i, sc, c14RegFamily) {
 			wedged++
 		}
 	}
 	for i := 0; i < n && wedged < 3; i++ {
-		if !c14RegistrySequence(res, rng, cf, i, nil) {
+		if !c14RegistrySequence(res, rng, cf, i, nil, c14RegFamily) {
 			wedged++
 		}
 	}
 }
+
+// c14Family: a generator of operations for c14RegistrySequence and the prefix of its distribution keys
+type c14Family struct {
+	tag  string
+	gen  func(rng *hx.Rng, active []c14Reg) c14ROp
+	nops func(rng *hx.Rng) int
+}
+
+var c14RegFamily = c14Family{"reg", c14GenROp, func(rng *hx.Rng) int { return 14 + rng.Intn(14) }}
 
 // c14Within runs a call that has no deadline of its own (generated proxy, implementor helpers) under one
 func c14Within(d time.Duration, f func() c14Res) (c14Res, bool) {
@@ -817,7 +882,7 @@ func c14Within(d time.Duration, f func() c14Res) (c14Res, bool) {
 // under that user id); every accepted write must give each active registration for the property
 // exactly one event, carrying the written bytes; a rejected write, a read, a registration, an
 // unregistration, a signal emission must produce no property event.
-func c14RegistrySequence(res *hx.Result, rng *hx.Rng, cf *hx.Cases, i int, script []c14ROp) bool {
+func c14RegistrySequence(res *hx.Result, rng *hx.Rng, cf *hx.Cases, i int, script []c14ROp, fam c14Family) bool {
 	e, err := c14NewEnv()
 	if err != nil {
 		res.Fail("harness-setup", err.Error())
@@ -830,18 +895,41 @@ func c14RegistrySequence(res *hx.Result, rng *hx.Rng, cf *hx.Cases, i int, scrip
 	untyped := false
 	collisions, rereg, invalid := 0, 0, false
 	everReg := map[string]bool{}
+	recording := true // false once a connection was closed: from there on the oracles only (the model has no such step)
 	record := func(op string, r string, evs []c14AnyEvent, desc string) {
-		ops = append(ops, fmt.Sprintf("(%s, ro %s %s)", op, r, c14AnyEventsTerm(evs)))
+		if recording {
+			ops = append(ops, fmt.Sprintf("(%s, ro %s %s)", op, r, c14AnyEventsTerm(evs)))
+		}
 		descs = append(descs, desc)
 	}
 	trace := func() string { return strings.Join(descs, " ; ") }
 	synced := true // false: a connection did not answer the barrier call within its deadline
+	// optional features of the object as the sequence switched them (c14feat.go)
+	statsOn, traceOn, featWrites, traceFrames := false, false, 0, 0
 	events := func() []c14AnyEvent {
-		evs, ok := e.allEvents()
+		all, ok := e.allEvents()
 		if !ok {
 			synced = false
 		}
+		// traceObject frames (signal 0x56: time stamps, one per traced message) are not the property's
+		// events and not in the model: counted, not compared
+		evs := all[:0]
+		for _, ev := range all {
+			if ev.action == c14TraceUID {
+				traceFrames++
+				continue
+			}
+			evs = append(evs, ev)
+		}
 		return evs
+	}
+	liveConn := func(c int) int { // the connection itself, or the next one the sequence has not closed
+		for k := 0; k < len(e.env.conns); k++ {
+			if !e.closed[(c+k)%len(e.env.conns)] {
+				return (c + k) % len(e.env.conns)
+			}
+		}
+		return c
 	}
 	fail := func(kind, detail string) {
 		if untyped {
@@ -894,7 +982,20 @@ func c14RegistrySequence(res *hx.Result, rng *hx.Rng, cf *hx.Cases, i int, scrip
 					}
 				}
 				if k != 1 {
-					fail("event-count", fmt.Sprintf("%s was accepted and the subscription %s received %d events: %s", desc, who, k, trace()))
+					var fr []string // where the change events of this write went
+					for _, ev := range evs {
+						if ev.action == c14PropUID {
+							fr = append(fr, fmt.Sprintf("(conn %d, message id %d, %x)", ev.conn, ev.mid, ev.data))
+						}
+					}
+					feat := ""
+					if statsOn || traceOn {
+						feat = fmt.Sprintf(" [statistics on: %v, traces on: %v]", statsOn, traceOn)
+					}
+					fail("event-count", fmt.Sprintf("%s was accepted and the subscription %s received %d events (change event frames of this write: %s)%s: %s", desc, who, k, strings.Join(fr, " "), feat, trace()))
+				}
+				if statsOn || traceOn {
+					featWrites++
 				}
 			}
 			if v.sig != "i" {
@@ -905,7 +1006,7 @@ func c14RegistrySequence(res *hx.Result, rng *hx.Rng, cf *hx.Cases, i int, scrip
 			last = &vv
 		} else {
 			silent(desc+" (rejected)", evs)
-			g, ok := e.rawGet(0, c14Delay)
+			g, ok := e.rawGet(liveConn(0), c14Delay)
 			if ok {
 				same := (last == nil && g.kind == 1) || (last != nil && g.kind == 0 && g.val.sig == last.sig && bytes.Equal(g.val.data, last.data))
 				if !same {
@@ -914,7 +1015,7 @@ func c14RegistrySequence(res *hx.Result, rng *hx.Rng, cf *hx.Cases, i int, scrip
 			}
 		}
 	}
-	nops := 14 + rng.Intn(14)
+	nops := fam.nops(rng)
 	if script != nil {
 		nops = len(script)
 	}
@@ -927,8 +1028,12 @@ func c14RegistrySequence(res *hx.Result, rng *hx.Rng, cf *hx.Cases, i int, scrip
 		if script != nil {
 			o = script[j]
 		} else {
-			o = c14GenROp(rng, active)
+			o = fam.gen(rng, active)
 		}
+		if o.kind == 9 && (len(e.closed)+2 > len(e.env.conns) || e.closed[o.conn]) {
+			continue // at least two connections stay
+		}
+		o.conn = liveConn(o.conn)
 		switch o.kind {
 		case 0:
 			for _, a := range active {
@@ -957,6 +1062,9 @@ func c14RegistrySequence(res *hx.Result, rng *hx.Rng, cf *hx.Cases, i int, scrip
 			}
 			record(fmt.Sprintf("SRegister %d %d %d %d %d", o.conn, o.obj, o.sig, o.uid, mid), r.sres(), evs, desc)
 			silent(desc, evs)
+			if o.sig == c14TraceUID {
+				traceOn = true // objectImpl.RegisterEvent: a registration to traceObject, acknowledged or not, switches traces on
+			}
 			if ok {
 				if everReg[key] {
 					rereg++
@@ -1069,21 +1177,124 @@ func c14RegistrySequence(res *hx.Result, rng *hx.Rng, cf *hx.Cases, i int, scrip
 			desc := fmt.Sprintf("SignalBoom(%d)->%s", int32(o.x), r)
 			record(fmt.Sprintf("SSignal %d", o.x), r.sres(), evs, desc)
 			silent(desc, evs)
+		case 7:
+			m, answered := e.rawCall(o.conn, o.action, c14AuxPayload(o))
+			evs := events()
+			r := c14Res{kind: 1}
+			if answered && m.Header.Type == net.Reply {
+				r.kind = 2
+			}
+			desc := fmt.Sprintf("%s on conn %d->%s", c14AuxName(o), o.conn, r)
+			if !answered {
+				res.Fail("call-unanswered", desc+": no answer within 5 s, after: "+trace())
+				return false
+			}
+			record(fmt.Sprintf("SAux %d %d", o.conn, o.action), r.sres(), evs, desc)
+			silent(desc, evs)
+			if r.kind == 2 {
+				switch o.action {
+				case c14ActEnableStats:
+					statsOn = o.on
+				case c14ActEnableTrace:
+					traceOn = o.on
+				case c14ActIsStats, c14ActIsTrace:
+					// the harness only believes a feature is on when the object says so
+					want := statsOn
+					if o.action == c14ActIsTrace {
+						want = traceOn
+					}
+					if len(m.Payload) != 1 || (m.Payload[0] != 0) != want {
+						res.Notes = append(res.Notes, fmt.Sprintf("%s answered %x, the sequence had switched it to %v: %s", c14AuxName(o), m.Payload, want, trace()))
+					} else if want {
+						res.Dist(fam.tag + ":feature-confirmed-on")
+					}
+				}
+			}
+		case 8:
+			r, answered := c14Within(5*time.Second, func() c14Res { return e.directSet(c14Delay, o.v) })
+			if !answered {
+				res.Fail("call-unanswered", fmt.Sprintf("setProperty(delay, %s) through the second mailbox: no answer within 5 s, after: %s", o.v, trace()))
+				return false
+			}
+			evs := events()
+			desc := fmt.Sprintf("direct-set(delay, %s)->%s", o.v, r)
+			record(fmt.Sprintf("SOp (PSet %s %s)", c14Delay.term(), o.v.term()), r.sres(), evs, desc)
+			if o.v.sig != "i" || len(o.v.data) != 4 || int32(binary.LittleEndian.Uint32(o.v.data)) < 0 {
+				invalid = true
+			}
+			checkWrite(desc, r, o.v, evs)
+		case 9:
+			// the connection leaves without unregistering.  What it registered ends with it; the others
+			// keep theirs.  The server drops its entries asynchronously (one closer goroutine per entry),
+			// and until then a write fails to reach it and reports that: the harness repeats a
+			// service-side update (fresh value each time) until one is answered ok, that one is judged.
+			events()
+			if e.closed == nil {
+				e.closed = map[int]bool{}
+			}
+			e.closed[o.conn] = true
+			e.env.conns[o.conn].c.Close()
+			recording = false
+			var keep []c14Reg
+			for _, a := range active {
+				if a.conn != o.conn {
+					keep = append(keep, a)
+				}
+			}
+			active = keep
+			descs = append(descs, fmt.Sprintf("conn %d closes", o.conn))
+			res.Dist(fam.tag + ":connection-closed")
+			var r c14Res
+			var evs []c14AnyEvent
+			x := uint32(1000)
+			for try := 0; try < 150; try++ {
+				x++
+				var answered bool
+				r, answered = c14Within(5*time.Second, func() c14Res { return e.update(x) })
+				if !answered {
+					res.Fail("call-unanswered", fmt.Sprintf("UpdateDelay(%d) after a connection closed: did not return within 5 s, after: %s", x, trace()))
+					return false
+				}
+				evs = events()
+				vv := c14Int(x)
+				last = &vv // saved before the notification that failed
+				if r.kind == 2 {
+					break
+				}
+				time.Sleep(10 * time.Millisecond)
+			}
+			desc := fmt.Sprintf("UpdateDelay(%d)->%s", int32(x), r)
+			descs = append(descs, desc)
+			if r.kind != 2 {
+				fail("write-keeps-failing-after-subscriber-left", fmt.Sprintf("%s: service-side updates still fail 1.5 s after a subscriber's connection closed: %s", desc, trace()))
+				r.kind = 2 // the value is stored: the remaining subscribers are owed its event
+			}
+			checkWrite(desc, r, c14Int(x), evs)
 		}
 	}
-	res.Count(strings.Join(ops, "|"), collisions > 0 || rereg > 0 || invalid)
+	canon := strings.Join(ops, "|")
+	if !recording {
+		canon += "|" + trace()
+	}
+	res.Count(canon, collisions > 0 || rereg > 0 || invalid || featWrites > 0)
+	if traceFrames > 0 {
+		res.Dist(fam.tag + ":sequences-with-traceObject-frames")
+	}
+	if featWrites > 0 {
+		res.Dist(fam.tag + ":sequences-with-accepted-writes-while-a-feature-is-on")
+	}
 	if script != nil {
-		res.Dist("reg-scripted")
+		res.Dist(fam.tag + "-scripted")
 	} else {
-		res.Dist(fmt.Sprintf("reg-ops:%d0s", len(ops)/10))
+		res.Dist(fmt.Sprintf("%s-ops:%d0s", fam.tag, len(ops)/10))
 		for _, d := range descs {
-			res.Dist("reg:" + strings.SplitN(d, "(", 2)[0])
+			res.Dist(fam.tag + ":" + strings.SplitN(d, "(", 2)[0])
 		}
 	}
 	if script == nil && i < 2 {
 		res.Sample(trace())
 	}
-	cf.Add("rcases", fmt.Sprintf("{| rc_ops := [\n    %s] |}", strings.Join(ops, ";\n    ")), fmt.Sprintf("registry sequence %d: %s", i, trace()))
+	cf.Add("rcases", fmt.Sprintf("{| rc_ops := [\n    %s] |}", strings.Join(ops, ";\n    ")), fmt.Sprintf("%s sequence %d: %s", fam.tag, i, trace()))
 	return true
 }
 
@@ -1178,7 +1389,9 @@ func c14Linearizable(init *c14Val, ops []*c14Op) bool {
 }
 
 func c14Concurrent(res *hx.Result, rng *hx.Rng, cf *hx.Cases, n int) {
-	for i := 0; i < n; i++ {
+	frng := hx.NewRng(res.Seed*0x9e3779b97f4a7c15 + 0xc14c0c) // which histories run with the optional features on: a stream of its own
+	wedged := 0                                               // histories in which a call got no answer within its deadline: the family stops after three
+	for i := 0; i < n && wedged < 3; i++ {
 		e, err := c14NewEnv()
 		if err != nil {
 			res.Fail("harness-setup", err.Error())
@@ -1186,6 +1399,19 @@ func c14Concurrent(res *hx.Result, rng *hx.Rng, cf *hx.Cases, n int) {
 		}
 		var initOps []string
 		var subs []c14Sub
+		// in a third of the histories method statistics (and in half of those traces too) are switched on
+		// first, by a connection that neither subscribes nor writes alone: the subscribers then register
+		// through the wrapper channels, the writers are other connections (for the model: no step at all)
+		feat := ""
+		if frng.Intn(3) == 0 {
+			feat = "statistics on; "
+			e.rawCall(1, c14ActEnableStats, []byte{1})
+			if frng.Bool() {
+				feat = "statistics and traces on; "
+				e.rawCall(2, c14ActEnableTrace, []byte{1})
+			}
+			res.Dist("conc-features-on")
+		}
 		for c := 0; c < 2; c++ {
 			mid, ok := e.subscribe(c, uint64(500+c))
 			if ok {
@@ -1255,14 +1481,14 @@ func c14Concurrent(res *hx.Result, rng *hx.Rng, cf *hx.Cases, n int) {
 				for j, o := range threads[t] {
 					o.inv = atomic.AddInt64(&clock, 1)
 					ok := true
-					switch {
+					switch { // (the helper and the second mailbox have no deadline of their own)
 					case o.update:
-						o.res = e.update(o.x)
+						o.res, ok = c14Within(5*time.Second, func() c14Res { return e.update(o.x) })
 					case t == 1: // second mailbox
 						if o.get {
-							o.res = e.directGet(o.nm)
+							o.res, ok = c14Within(5*time.Second, func() c14Res { return e.directGet(o.nm) })
 						} else {
-							o.res = e.directSet(o.nm, o.v)
+							o.res, ok = c14Within(5*time.Second, func() c14Res { return e.directSet(o.nm, o.v) })
 						}
 					default:
 						conn := 2
@@ -1279,6 +1505,9 @@ func c14Concurrent(res *hx.Result, rng *hx.Rng, cf *hx.Cases, n int) {
 					o.done = ok
 					if forced && t == 2 && j == 0 {
 						close(e.impl.hold) // one complete update has happened inside the held write
+					}
+					if !ok {
+						break // no answer within 5 s: the thread gives up, its remaining operations are not invoked
 					}
 				}
 			}(t)
@@ -1301,10 +1530,19 @@ func c14Concurrent(res *hx.Result, rng *hx.Rng, cf *hx.Cases, n int) {
 		e.close()
 		var all []*c14Op
 		overlap := false
+		unanswered := false
 		for _, th := range threads {
-			all = append(all, th...)
+			for _, o := range th {
+				if o.inv != 0 { // invoked
+					all = append(all, o)
+					unanswered = unanswered || !o.done
+				}
+			}
 		}
 		all = append(all, final)
+		if unanswered {
+			wedged++
+		}
 		var hist, descs []string
 		var accepted [][]byte
 		for _, o := range all {
@@ -1328,7 +1566,7 @@ func c14Concurrent(res *hx.Result, rng *hx.Rng, cf *hx.Cases, n int) {
 				}
 			}
 		}
-		trace := strings.Join(descs, " ")
+		trace := feat + strings.Join(descs, " ")
 		untyped := false
 		for _, o := range all {
 			if !o.get && !o.update && o.res.kind == 2 && o.v.sig != "i" {
@@ -1423,16 +1661,21 @@ func runC14(res *hx.Result, rng *hx.Rng, tier string, outdir string) {
 		"subscriber table: 14-27 operations (raw registerEvent / unregisterEvent on three connections with client-chosen user ids from a pool of six — " +
 		"half of them aimed at a (connection, id) pair registered right now, for the same or another signal/property of the object, any object id form —, " +
 		"raw and generated writes, UpdateDelay, SignalBoom, reads) plus the 48 scripted collisions of one id (signal A, optional unregister naming A or B, signal B on the same or another connection); " +
+		"optional features: 16-30 operations (enableStats / enableTrace on and off and a registration to traceObject, by any of the three connections; metaObject, properties, stats, clearStats, isStatsEnabled, isTraceEnabled; " +
+		"registerEvent / unregisterEvent under the SAME user ids on the three connections for the property, the signal and traceObject; writes by raw connections, the generated proxy, the second mailbox, the service; SignalBoom; reads; " +
+		"a connection that closes without unregistering, after which the harness repeats a service-side update until one is answered ok and judges that one) plus 20 scripted sequences " +
+		"(feature setting none / statistics / traces / both / traces by registration x switched off again or not x the second subscriber leaves by unregisterEvent or by closing; the three connections do the same steps); " +
+		"half of the sequential sequences and a third of the concurrent histories run with statistics (and traces) switched on beforehand; " +
 		"concurrent: 3-4 threads (server mailbox, second mailbox through DirectClient, the implementor's goroutine, a second connection) x 2-4 operations, " +
 		"stamped by one atomic counter, half of them with a write held inside the validator while others complete; " +
 		"several properties (an object built with bus.NewBasicObject declaring 2-8 int32 properties): 3-5 threads (service-side UpdateProperty goroutines, further mailboxes of the object, " +
 		"DirectClient, a server connection) x 2-4 reads / writes by name or uid / updates mostly of DIFFERENT properties, a subscriber per property, final reads; and rounds of bursts released by a spin barrier — " +
 		"one writer per property with read-back, a polling reader and final reads of every property, or several writers of one property with subscribers on all — that stop at the first failure; " +
-		"non-trivial = an invalid or wrongly-typed write is present (sequential), a user id collision, a re-registration or an invalid write is present (subscriber table), two operations of different threads overlap (concurrent), " +
+		"non-trivial = an invalid or wrongly-typed write is present (sequential), a user id collision, a re-registration or an invalid write is present (subscriber table), the same or an accepted write to a subscriber while statistics or traces are on (optional features), two operations of different threads overlap (concurrent), " +
 		"two accepted writes of different threads to different properties overlap (several properties; for a configuration of rounds: in a sampled round); distinct by sha256"
-	nSeq, nReg, nConc, nMulti := 120, 60, 80, 40
+	nSeq, nReg, nConc, nMulti, nFeat := 120, 60, 80, 40, 50
 	if tier == "thorough" {
-		nSeq, nReg, nConc, nMulti = 4000, 3000, 4000, 2000
+		nSeq, nReg, nConc, nMulti, nFeat = 4000, 3000, 4000, 2000, 2500
 	}
 	on := c14Probe(res)
 	cf := hx.NewCases(outdir, "C14", "From QV Require Import Bytes Property PropertySubs PropertyMulti Lin C14Run.", "mismatches cfg scases ccases rcases mcases", res,
@@ -1446,6 +1689,7 @@ func runC14(res *hx.Result, rng *hx.Rng, tier string, outdir string) {
 	}
 	c14Concurrent(res, rng, cf, nConc)
 	c14Registry(res, rng, cf, nReg) // after the two above: they keep the random stream they had before this family existed
+	c14Features(res, cf, nFeat)     // optional features on and off, same steps on several connections, leavers (c14feat.go); own random stream
 	// objects with several properties (c14multi.go); these schedules want several CPUs
 	if prev := runtime.GOMAXPROCS(0); prev < 4 {
 		runtime.GOMAXPROCS(4)
